@@ -33,6 +33,33 @@ class _Canon(ast.NodeTransformer):
 
     def visit_Assign(self, node):
         self.generic_visit(node)
+        # a = b = <constant or name>   ->   a = v; b = v
+        if len(node.targets) > 1 and isinstance(node.value, (ast.Constant, ast.Name)) and all(isinstance(t, (ast.Name, ast.Attribute)) for t in node.targets):
+            return [self.visit_Assign(ast.copy_location(ast.Assign(targets=[t], value=clone(node.value)), node)) for t in node.targets]
+        # a, b = x, y  with y not reading a   ->   a = x; b = y   (the right-hand side is evaluated before any store, so the split is exact only then)
+        if len(node.targets) == 1 and isinstance(node.targets[0], ast.Tuple) and isinstance(node.value, ast.Tuple) \
+                and len(node.targets[0].elts) == len(node.value.elts) >= 2 and all(isinstance(t, (ast.Name, ast.Attribute)) for t in node.targets[0].elts) \
+                and not any(isinstance(x, ast.Starred) for x in node.value.elts):
+            tg, vs = node.targets[0].elts, node.value.elts
+            texts = [ast.unparse(t) for t in tg]
+            safe = True
+            for k in range(1, len(vs)):
+                reads = {ast.unparse(n0) for n0 in ast.walk(vs[k]) if isinstance(n0, (ast.Name, ast.Attribute))}
+                if any(t0 in reads for t0 in texts[:k]) or any(isinstance(n0, ast.Call) for n0 in ast.walk(vs[k])):
+                    safe = False
+            if any(isinstance(n0, ast.Call) for n0 in ast.walk(vs[0])) and len(vs) > 1 and any(not isinstance(v0, (ast.Constant, ast.Name, ast.Attribute, ast.BinOp)) for v0 in vs[1:]):
+                safe = False
+            if safe:
+                out = []
+                for t0, v0 in zip(tg, vs):
+                    r0 = self.visit_Assign(ast.copy_location(ast.Assign(targets=[t0], value=v0), node))
+                    out.extend(r0 if isinstance(r0, list) else [r0])
+                return out
+        # A.b = A.b + e   ->   A.b += e   (attribute chains, like plain names below)
+        if len(node.targets) == 1 and isinstance(node.targets[0], ast.Attribute) and isinstance(node.value, ast.BinOp) \
+                and isinstance(node.value.left, ast.Attribute) and ast.unparse(node.value.left) == ast.unparse(node.targets[0]) \
+                and isinstance(node.value.op, (ast.Add, ast.Sub)):
+            return ast.copy_location(ast.AugAssign(target=node.targets[0], op=node.value.op, value=node.value.right), node)
         if isinstance(node.value, ast.IfExp) and len(node.targets) == 1:
             v = node.value
             mk = lambda val: ast.copy_location(ast.Assign(targets=[clone(node.targets[0])], value=val), node)
@@ -58,6 +85,37 @@ class _Canon(ast.NodeTransformer):
                 and isinstance(node.value.left, ast.Name) and node.value.left.id == node.targets[0].id \
                 and isinstance(node.value.op, (ast.Add, ast.Sub, ast.Mult, ast.Div)):
             return ast.copy_location(ast.AugAssign(target=ast.Name(id=node.targets[0].id, ctx=ast.Store()), op=node.value.op, value=node.value.right), node)
+        return node
+
+    def visit_Expr(self, node):
+        """`L.extend([a, b])`, `L.extend((a, b))`, `L.extend(map(f, (a, b)))` (literal sequences): the appends they abbreviate, in order"""
+        self.generic_visit(node)
+        c = node.value
+        if isinstance(c, ast.Call) and isinstance(c.func, ast.Attribute) and c.func.attr == "extend" and len(c.args) == 1 and not c.keywords:
+            a = c.args[0]
+            items = None
+            if isinstance(a, (ast.List, ast.Tuple)) and a.elts and not any(isinstance(x, ast.Starred) for x in a.elts):
+                items = list(a.elts)
+            elif isinstance(a, ast.Call) and isinstance(a.func, ast.Name) and a.func.id == "map" and len(a.args) == 2 and not a.keywords \
+                    and isinstance(a.args[1], (ast.List, ast.Tuple)) and a.args[1].elts and not any(isinstance(x, ast.Starred) for x in a.args[1].elts) \
+                    and isinstance(a.args[0], (ast.Name, ast.Attribute)):
+                items = [ast.copy_location(ast.Call(func=clone(a.args[0]), args=[x], keywords=[]), node) for x in a.args[1].elts]
+            if items is not None:
+                return [ast.copy_location(ast.Expr(value=ast.copy_location(ast.Call(func=ast.Attribute(value=clone(c.func.value), attr="append", ctx=ast.Load()),
+                                                                                     args=[x], keywords=[]), node)), node) for x in items]
+        return node
+
+    def visit_AugAssign(self, node):
+        """`L += [a, b]` on an attribute / name: the same appends"""
+        self.generic_visit(node)
+        if isinstance(node.op, ast.Add) and isinstance(node.value, ast.List) and node.value.elts and isinstance(node.target, (ast.Attribute,)) \
+                and not any(isinstance(x, ast.Starred) for x in node.value.elts):
+            tgt = clone(node.target)
+            for n0 in ast.walk(tgt):
+                if hasattr(n0, "ctx"):
+                    n0.ctx = ast.Load()
+            return [ast.copy_location(ast.Expr(value=ast.copy_location(ast.Call(func=ast.Attribute(value=clone(tgt), attr="append", ctx=ast.Load()),
+                                                                                 args=[x], keywords=[]), node)), node) for x in node.value.elts]
         return node
 
     def visit_Return(self, node):
